@@ -75,7 +75,7 @@ def specs(ctx):
     for psi, Tn in ((0.9, 1.02), (0.8, 1.1), (0.6, 1.05), (0.95, 1.003), (0.62, 0.88),
                     (0.58, 0.88), (0.65, 0.92)):
         out.append(dict(kind="bag", psi=psi, Tn=Tn))
-    for _ in range(ctx.n(8, 120)):
+    for _ in range(ctx.n(8, 80)):
         out.append(dict(kind="bag", psi=round(rng.uniform(0.15, 0.98), 3),
                         Tn=round(rng.uniform(0.45, 1.08), 3)))
     for Tn in (0.5, 0.6, 0.7, 0.8, 0.9, 0.95, 1.02):
@@ -1080,7 +1080,7 @@ def direct(ctx, proved):
     # histories: the solver is used after its model object moved on to another nucleation
     # temperature (a temperature scan re-using one model; tests/test_Hydrodynamics.py does it)
     pool = [x for x in sp if x["kind"] in ("bag", "twostep")]
-    for spec in pool[2::ctx.n(9, 4)]:
+    for spec in pool[2::ctx.n(9, 6)]:
         later = round(spec["Tn"] + (0.1 if spec["Tn"] < 0.8 else -0.15), 3)
         try:
             fails, mc = check_lte(ctx, spec, later_Tn=later)
@@ -1132,10 +1132,10 @@ def direct(ctx, proved):
             guarded("strong supercooling", spec, lambda: check_lte(ctx, spec), "")
             ctx.count("family_strong_supercooling", spec)
     # the EOS through the manager (other call path, config defaults)
-    for spec in pool[1::ctx.n(12, 4)]:
+    for spec in pool[1::ctx.n(12, 6)]:
         guarded("through WallGoManager", spec, lambda: through_manager(ctx, spec), ":manager")
     # other solver parameters (tmax, tmin, rtol, atol) and integer-typed inputs
-    for k, spec in enumerate(pool[3::ctx.n(12, 4)]):
+    for k, spec in enumerate(pool[3::ctx.n(12, 6)]):
         tmax, tmin, rt, at = [(5.0, 0.05, 1e-7, 1e-11), (20.0, 0.005, 1e-6, 1e-10),
                               (10, 0.01, 1e-8, 1e-12), (3.0, 0.1, 1e-6, 1e-9)][k % 4]
         guarded("tmax=%r tmin=%r rtol=%g atol=%g" % (tmax, tmin, rt, at), spec,
@@ -1146,7 +1146,7 @@ def direct(ctx, proved):
         spec = dict(kind="template", psiN=0.9, alN=0.1, cs2=0.3, cb2=0.28, Tn=Tn)
         guarded("integer Tn, tmax", spec, lambda: check_lte(ctx, spec, tmax=10), ":int")
     # call histories on one object: findvwLTE twice, and after other methods
-    for spec in pool[5::ctx.n(12, 4)]:
+    for spec in pool[5::ctx.n(12, 6)]:
         def twice():
             th, hy = S.make_hydro(spec)
             first = None
@@ -1183,7 +1183,7 @@ def direct(ctx, proved):
     # the repo's own tests run with atol = 1e-6: diagnostics, gated only when listed
     cand = []
     diag = [s for s in sp if s["kind"] == "bag"]
-    for spec in diag[1:48:ctx.n(3, 1)] + diag[48:ctx.n(50, 175)]:
+    for spec in diag[1:48:ctx.n(3, 1)] + diag[48:ctx.n(50, 100)]:
         try:
             fails, _mc = check_lte(ctx, spec, rtol=1e-6, atol=1e-6)
         except Exception:
